@@ -297,6 +297,9 @@ func (fr *Frame) inline(st *State, callee *ssa.Function, bindings, args []*Term,
 	out, res := sub.run(st)
 	ex.callStack = ex.callStack[:len(ex.callStack)-1]
 	if out == nil {
+		if debugOn {
+			fmt.Printf("DEBUG inlined %s never returns (called from %s)\n", callee.Name(), fr.fn.Name())
+		}
 		// callee never returns on this path (panics)
 		st.pc = ex.f.False()
 		return nil
@@ -585,7 +588,24 @@ func (fr *Frame) loopInvariants(li *loopInfo) []*Clause {
 		return nil
 	}
 	for _, cl := range ct.Invs {
-		if cl.Loop == li.ord && cl.HasTag(fr.ex.prop) {
+		if cl.Loop == li.ord && cl.HasTag(fr.ex.prop) && cl.Kind == "invariant" {
+			out = append(out, cl)
+		}
+	}
+	return out
+}
+
+func (fr *Frame) loopSteps(li *loopInfo) []*Clause {
+	var out []*Clause
+	ct := fr.contract
+	if ct == nil {
+		ct = fr.ex.W.contracts[fr.key()]
+	}
+	if ct == nil {
+		return nil
+	}
+	for _, cl := range ct.Invs {
+		if cl.Loop == li.ord && cl.HasTag(fr.ex.prop) && cl.Kind == "step" {
 			out = append(out, cl)
 		}
 	}
@@ -896,6 +916,7 @@ func (fr *Frame) loopHeader(st *State, li *loopInfo, phis []*ssa.Phi, entryVals 
 	if fr.verifyingRoot() && len(invs) > 0 {
 		ex.addOblig(&Obligation{Name: fmt.Sprintf("%s/cover@loop%d", fr.key(), li.ord), Kind: "cover", Fn: fr.rootKey(), Goal: f.False(), PC: st.pc, Cover: true})
 	}
+	li.head = st.clone()
 }
 
 func (fr *Frame) loopBackEdge(st *State, li *loopInfo, from *ssa.BasicBlock) {
@@ -904,7 +925,8 @@ func (fr *Frame) loopBackEdge(st *State, li *loopInfo, from *ssa.BasicBlock) {
 		return
 	}
 	invs := fr.loopInvariants(li)
-	if len(invs) == 0 {
+	steps := fr.loopSteps(li)
+	if len(invs) == 0 && len(steps) == 0 {
 		return
 	}
 	// bind header phis to the values flowing along this back edge
@@ -935,6 +957,18 @@ func (fr *Frame) loopBackEdge(st *State, li *loopInfo, from *ssa.BasicBlock) {
 			continue
 		}
 		ex.addOblig(&Obligation{Name: fmt.Sprintf("%s/invariant-step@%s:from%d", fr.key(), fr.invName(li, cl, k), fr.backEdgeOrd(li, from)), Kind: "invariant-step", Fn: fr.rootKey(), Goal: goal, PC: st.pc, Clause: cl})
+	}
+	for k, cl := range steps {
+		ctx := fr.evalCtx(st, li.header)
+		ctx.altBlock = from
+		ctx.prevPhis = saved
+		ctx.prevState = li.head
+		goal, err := ctx.evalBool(cl.Text)
+		if err != nil {
+			ex.W.contractError(cl, err)
+			continue
+		}
+		ex.addOblig(&Obligation{Name: fmt.Sprintf("%s/loop-step@%s:from%d", fr.key(), fr.invName(li, cl, k), fr.backEdgeOrd(li, from)), Kind: "loop-step", Fn: fr.rootKey(), Goal: goal, PC: st.pc, Clause: cl})
 	}
 	for p, v := range saved {
 		fr.env[p] = v
